@@ -188,9 +188,13 @@ def run_case(case):
                 if nm is not None:
                     normal = [a for a, v in desc["alleles"].items() if v["kind"] == "normal"]
                     kind, alleles = "edge-" + case["edge"], [nm, rng.choice(normal)]
+        n_patches = 0
+        if case["stream"] != "shipped" and random.Random(case["seed"] + 17).random() < 0.3:
+            # the reference spelled with `patches` (as VKORC1 and NAT1 are): the substitutions of the planted alleles sit on patched bases
+            n_patches = gendb.respell_with_patches(desc, yml, random.Random(case["seed"] + 18), prefer=alleles)
         bam = os.path.join(d, f"S{case['seed'] % 100000}.bam")
         info = simreads.simulate(desc, build, alleles, None, L, step, bam, rng)
-        out = {"planted": alleles, "kind": kind, "build": build, "strand": desc["builds"][build]["strand"], "L": L, "depth": L // step,
+        out = {"planted": alleles, "kind": kind, "patches": n_patches, "build": build, "strand": desc["builds"][build]["strand"], "L": L, "depth": L // step,
                "pseudogene": bool(desc["pseudogene"]), "refseq_span": desc["opts"]["refseq_span"], "error": None,
                "variant_kinds": sorted({("snp" if ">" in v[1] and len(v[1]) == 3 else "mnp" if ">" in v[1] else v[1][:3])
                                         for s in alleles for p in s.split("#") for v in desc["alleles"][p]["variants"]})}
